@@ -101,11 +101,11 @@ Theorem C19_one_reference_left :
   forall st, SInv st -> 1 <= nstreams st -> refs st = 1 -> nstreams st = 1 /\ handles st = [].
 Proof. exact one_reference_left. Qed.
 
-Theorem C19_known_evict_rejected :
+Theorem C19_evict_needs_transition :
   srun (sinit None None 0%Z 20%Z None)
        [ LInsert 0 1 1; LPush KCap (0, 1); LTransitionAfter (0, 1) (mkSO true false false true); LQuiesce;
          LPop KCap; LQuiesce ] = inr (5, SStuck 9).
-Proof. exact known_evict_rejected. Qed.
+Proof. exact evict_needs_transition. Qed.
 
 Theorem C19_nonvacuous :
   match srun (sinit (Some 5%Z) None 10%Z 20%Z None) demo_slabels with
